@@ -124,10 +124,12 @@ def make_optimizer(name, extra=None):
 def tracked_spec(name, params):
     if name == "none":
         return None
-    eq_tracked = {k: (True if k == "a" else None) for k in reversed(list(params.eq_params))}  # a dict is matched by key
+    # "non-None values for parameters that need to be tracked": True for "eq", other non-None numbers for "nn+eq"
+    flag = True if name == "eq" else 2.5
+    eq_tracked = {k: (flag if k == "a" else None) for k in reversed(list(params.eq_params))}  # a dict is matched by key
     if name == "eq":
         return jinns.parameters.Params(nn_params=None, eq_params=eq_tracked)
-    return jinns.parameters.Params(nn_params=jax.tree_util.tree_map(lambda _: True, params.nn_params), eq_params=eq_tracked)
+    return jinns.parameters.Params(nn_params=jax.tree_util.tree_map(lambda _: 3, params.nn_params), eq_params=eq_tracked)
 
 
 # ------------------------------------------------------------------ textbook loop
@@ -232,6 +234,11 @@ def leaves_close(a, b, tol=1e-10, nan_ok=False):
             x, y = np.nan_to_num(x), np.nan_to_num(y)
         elif np.any(np.isnan(x)) or np.any(np.isnan(y)):
             return False, "unexpected NaN"
+        ix, iy = np.isinf(x), np.isinf(y)
+        if np.any(ix) or np.any(iy):
+            if not np.array_equal(np.where(ix, np.sign(x), 0.0), np.where(iy, np.sign(y), 0.0)):
+                return False, "pattern of infinite entries differs"
+            x, y = np.where(ix, 0.0, x), np.where(iy, 0.0, y)
         if x.size:
             d = float(np.max(np.abs(x - y) / (1.0 + np.abs(y))))
             worst = max(worst, d)
